@@ -540,6 +540,34 @@ fn s64_export_body(shape: usize) {
     kani::cover!(dl == 20);
 }
 
+/// The word `Residual::write` hands to `write_msbs` for a Rice code: the p+1 leading bits of
+/// ((r | 2^p) << (31 - p)) are a one followed by the p bits of r, and nothing else is set - so that
+/// "q zeros ++ these p+1 bits" is the RFC 9639 Rice code (Verus unit residual_write states the
+/// writer in terms of this word).  Every p <= 14 and r < 2^p, on both sinks' ideal string.
+//@ unit props=C01,C02 tier=quick kind=complete timeout=300 funcs="<Residual as BitRepr>::write (Rice code word)" note="word identity, loop-free: complete"
+#[kani::proof]
+#[kani::unwind(4)]
+fn c01_rice_code_word() {
+    let p: u8 = kani::any();
+    kani::assume(p <= 14);
+    let r: u32 = kani::any();
+    kani::assume(r < (1u32 << p));
+    let startbit: u32 = 1u32 << p;
+    let n: usize = (p + 1) as usize;
+    let word = (r | startbit) << (32 - n);
+    // its n leading bits, read as a number, are 2^p + r; all lower bits are zero
+    assert!(word >> (32 - n) == (1u32 << p) + r);
+    assert!(word & ((1u32 << (32 - n)) - 1) == 0);
+    let mut a = Ideal::new();
+    a.push_msbs((word as u64) << 32, n);
+    let mut b = Ideal::new();
+    b.push_lsbs(1, 1);
+    b.push_lsbs(r as u64, p as usize);
+    assert!(a.len == b.len && a.w[0] == b.w[0]);
+    kani::cover!(p == 0);
+    kani::cover!(p == 14 && r == (1 << 14) - 1);
+}
+
 /// Byte-sink constructors / exports used by `Frame::precompute_bitstream` (Verus unit
 /// frame_precompute): `with_capacity(n)` is the EMPTY sink for every n that can be allocated;
 /// `into_inner` / `as_slice` of a sink whose length is a whole number of bytes are exactly the
